@@ -49,18 +49,34 @@ def check(tier, seed, only=None, skip_a=False, skip_b=False):
       cov["functions_under_contract"].append(loader.locate(fn))
     except Exception as e:  # pylint: disable=broad-except
       undecided.append(f"obligation={fn} reason=function-not-found:{e}")
+  if not skip_a:
+    from contracts import reader_times
+    hs = [reader_times.h_srt_times()]
+    if only:
+      hs = [h for h in hs if only in h.name]
+    cov_a, f_a, u_a, e_a = framework.run_tier_a(PROP, hs)
+    located = {f["qualname"] for f in cov_a.get("functions_under_contract", [])}
+    cov_a["functions_under_contract"] = cov_a.get("functions_under_contract", []) + [f for f in cov["functions_under_contract"] if f["qualname"] not in located]
+    cov = cov_a
+    findings += f_a
+    undecided += u_a
+    errors += e_a
   if not skip_b:
     data, errs = framework.run_tier_b("c10", tier, seed)
     errors += errs
     if data:
-      findings = framework.findings_from_rtc(data)
-      for k in ("evaluations", "distinct_nontrivial", "rule", "bounded_scope", "exhaustive", "samples", "per_contract"):
+      findings += framework.findings_from_rtc(data)
+      for k in ("evaluations", "distinct_nontrivial", "rule", "bounded_scope", "per_contract"):
         cov[k] = data.get(k)
+      cov["bounded_exhaustive"] = data.get("exhaustive")
+      cov["bounded_samples"] = data.get("samples", [])[:10]
       if not data.get("evaluations"):
         errors.append("no contract was evaluated")
-  cov["explanation"] = ("Run-time contracts on the real ttconv.srt.reader.to_model against an independent SubRip oracle over generated SRT texts "
+  cov["explanation"] = ("Tier A (proved, pyvc + z3, assumption A-RE): the real srt.reader.to_model is executed on a file whose timing line is a "
+                        "placeholder matched by a stub of the reader's own compiled pattern with symbolic digit groups; for every value of "
+                        "every time field, begin and end of the paragraph are exactly the printed times and exact rationals (not floats).  "
+                        "Tier B: run-time contracts on the real ttconv.srt.reader.to_model against an independent SubRip oracle over generated SRT texts "
                         "(cue grammar of the property), per-field exhaustive time grids, frame-boundary times through the IMSC writer in frames "
-                        "syntax for 8 frame rates, and writer round trips of generated model documents.  Bounded; nothing is proved by SMT "
-                        "(the time computation is inline behind a regular expression, see the module docstring).")
+                        "syntax for 8 frame rates, and writer round trips of generated model documents (bounded, not counted as proved).")
   cov["trusted_base"] = ASSUMPTIONS
-  return framework.Outcome(PROP, tier, seed, "exploration", cov, ASSUMPTIONS, findings, undecided, errors, 0.0)
+  return framework.Outcome(PROP, tier, seed, "other", cov, ASSUMPTIONS, findings, undecided, errors, 0.0)
